@@ -31,15 +31,18 @@ impl Substitution {
     //         .join("\n")
     // }
 
-    pub fn extend(&mut self, other: Substitution) {
+    pub fn extend(&mut self, other: Substitution) -> Result<(), SubstitutionError> {
         for (_, t) in &mut self.0 {
-            t.apply(&other).unwrap(); // TODO: is the unwrap okay here?
+            // This can fail: `0^2 && true` maps the type variable of the polymorphic zero
+            // (which occurs inside a dimension expression) to Bool.
+            t.apply(&other)?;
         }
         self.0.extend(other.0);
+        Ok(())
     }
 
-    pub fn append(&mut self, v: TypeVariable, t: Type) {
-        self.extend(Substitution::single(v, t));
+    pub fn append(&mut self, v: TypeVariable, t: Type) -> Result<(), SubstitutionError> {
+        self.extend(Substitution::single(v, t))
     }
 }
 
